@@ -5,7 +5,7 @@
    over Model/Ratio32.v (num-rational Ord::cmp).  ⟦x⟧ = [qv x] : Q.                 *)
 From Coq Require Import ZArith QArith List.
 From MW Require Import Model.Base Model.F64 Model.Num Model.Ratio32 Model.NumArith Model.NumSpec
-  Proofs.GcdProofs Proofs.Ratio32Proofs Proofs.NumProofs Proofs.CmpProofs.
+  Proofs.GcdProofs Proofs.Ratio32Proofs Proofs.NumProofs Proofs.CmpProofs Proofs.CmpFloatProofs.
 Import ListNotations.
 Open Scope Z_scope.
 
@@ -139,9 +139,24 @@ Theorem C09_refuted_rounding_ratio :
 Proof. vm_compute. reflexivity. Qed.
 Print Assumptions C09_refuted_rounding_ratio.
 
-(* ---- OPEN: cmp_exact for the 7 representation pairs that involve a Float (float-float by
-   Flocq's Bcompare_correct; exact-vs-float outside the class "the exact operand is not
-   exactly a double").  Tied and oracle-checked on every run; no Coq proof yet. *)
+(* ... stated with the values: the two operands compare = although the double is not 1/3
+   (it is 6004799503160661 / 2^54) *)
+Theorem C09_refuted_rounding_ratio_values :
+  num_eq Debug (Rational 1 3) (Float (f64_of_bits 0x3fd5555555555555)) = Ok true /\
+  f64_value_is (f64_of_bits 0x3fd5555555555555) (1 # 3) = false /\
+  f64_value_is (f64_of_bits 0x3fd5555555555555) (6004799503160661 # 18014398509481984) = true.
+Proof. repeat split; vm_compute; reflexivity. Qed.
+Print Assumptions C09_refuted_rounding_ratio_values.
+
+(* ---- cmp_exact for the 7 representation pairs that involve a Float.
+   The statement first written by the "num" package (kept below, REFUTED) quantifies over an
+   arbitrary valuation [fval] of doubles and has no side condition, so it is false twice over:
+   for a silly [fval] (C09_cmp_float_refuted), and — with the intended valuation [f64_to_Q],
+   the value (-1)^s * m * 2^e of a finite double — on the recorded class
+   exact-vs-inexact-by-rounding (C09_cmp_float_refuted_rounding).
+   The corrected statements instantiate fval := f64_to_Q and add the named, decidable
+   hypothesis [float_side_exact a b]: both operands exact, or every exact operand converts to a
+   double exactly ([exact_in_f64]: to_f64 of the number is finite and has the number's value). *)
 Definition nval (fval : f64 -> option Q) (x : num) : option Q :=
   match x with Float f => fval f | _ => Some (qv x) end.
 Definition C09_cmp_float_stmt : Prop :=
@@ -150,6 +165,124 @@ Definition C09_cmp_float_stmt : Prop :=
     nval fval a = Some va -> nval fval b = Some vb ->
     num_partial_cmp p a b = Ok (Some (va ?= vb)%Q).
 
+(* Float-Float: partial_cmp of two finite doubles is the order of their values
+   (Flocq's Bcompare_correct carried from R to Q) *)
+Theorem C09_cmp_float_float : forall p a b va vb,
+  f64_to_Q a = Some va -> f64_to_Q b = Some vb ->
+  num_partial_cmp p (Float a) (Float b) = Ok (Some (va ?= vb)%Q).
+Proof. exact cmp_float_float. Qed.
+Print Assumptions C09_cmp_float_float.
+
+(* all 16 representation pairs, finite values: C09_cmp_float_stmt with fval := f64_to_Q and
+   the side condition *)
+Theorem C09_cmp_float : forall p a b va vb,
+  wfb a = true -> wfb b = true -> non_nan a = true -> non_nan b = true ->
+  float_side_exact a b = true ->
+  nval f64_to_Q a = Some va -> nval f64_to_Q b = Some vb ->
+  num_partial_cmp p a b = Ok (Some (va ?= vb)%Q).
+Proof. exact cmp_all_pairs. Qed.
+Print Assumptions C09_cmp_float.
+
+(* ... and for ALL non-NaN numbers, the infinities included: values in the extended
+   rationals [xq], order [xq_cmp] *)
+Theorem C09_cmp_float_inf : forall p a b va vb,
+  wfb a = true -> wfb b = true -> non_nan a = true -> non_nan b = true ->
+  float_side_exact a b = true ->
+  nvalx a = Some va -> nvalx b = Some vb ->
+  num_partial_cmp p a b = Ok (Some (xq_cmp va vb)).
+Proof. exact cmp_all_pairs_inf. Qed.
+Print Assumptions C09_cmp_float_inf.
+
+(* the side condition holds of every integer |z| <= 2^53 (more generally of m * 2^e with
+   |m| < 2^53 below the overflow threshold): Fixnum / BigInt against any finite double *)
+Theorem C09_cmp_small_int_float : forall p (big : bool) z r vr,
+  Z.abs z <= 2 ^ 53 -> f64_to_Q r = Some vr ->
+  let x := if big then BigInt z else Fixnum z in
+  num_partial_cmp p x (Float r) = Ok (Some (inject_Z z ?= vr)%Q) /\
+  num_partial_cmp p (Float r) x = Ok (Some (vr ?= inject_Z z)%Q).
+Proof. exact cmp_small_int_float. Qed.
+Print Assumptions C09_cmp_small_int_float.
+
+Theorem C09_int_exact_in_f64 : forall z m e,
+  z = m * 2 ^ e -> Z.abs m < 2 ^ 53 -> 0 <= e -> Z.abs z < 2 ^ 1024 ->
+  exists q, f64_to_Q (f64_of_Z z) = Some q /\ (q == inject_Z z)%Q.
+Proof. exact f64_of_Z_exact. Qed.
+Print Assumptions C09_int_exact_in_f64.
+
+(* ... and of every Rational n/2^k (to_f64 is one correctly rounded division of two exactly
+   converted i32): Rational against any finite double, unconditionally *)
+Theorem C09_dyadic_exact_in_f64 : forall n k, in_i32 n = true -> 0 <= k <= 30 ->
+  exact_in_f64 (Rational n (2 ^ k)) = true.
+Proof. exact dyadic_exact_in_f64. Qed.
+Print Assumptions C09_dyadic_exact_in_f64.
+
+Theorem C09_cmp_dyadic_float : forall p n k r vr,
+  rwfb n (2 ^ k) = true -> 0 <= k -> f64_to_Q r = Some vr ->
+  num_partial_cmp p (Rational n (2 ^ k)) (Float r) = Ok (Some ((n # Z.to_pos (2 ^ k)) ?= vr)%Q) /\
+  num_partial_cmp p (Float r) (Rational n (2 ^ k)) = Ok (Some (vr ?= (n # Z.to_pos (2 ^ k)))%Q).
+Proof. exact cmp_dyadic_float. Qed.
+Print Assumptions C09_cmp_dyadic_float.
+
+(* == on all non-NaN numbers: decided by the values *)
+Theorem C09_eq_float_inf : forall p a b va vb,
+  wfb a = true -> wfb b = true -> non_nan a = true -> non_nan b = true ->
+  float_side_exact a b = true ->
+  nvalx a = Some va -> nvalx b = Some vb ->
+  num_eq p a b = Ok (is_Eq (xq_cmp va vb)).
+Proof. exact eq_all_pairs_inf. Qed.
+Print Assumptions C09_eq_float_inf.
+
+(* C09_full (transitivity of =) holds for all non-NaN numbers outside the class
+   exact-vs-inexact-by-rounding, i.e. when none of the three comparisons rounds an exact
+   operand; likewise transitivity of < and trichotomy *)
+Theorem C09_full_outside_rounding : forall p a b c,
+  wfb a = true -> wfb b = true -> wfb c = true ->
+  non_nan a = true -> non_nan b = true -> non_nan c = true ->
+  float_side_exact a b = true -> float_side_exact b c = true -> float_side_exact a c = true ->
+  num_eq p a b = Ok true -> num_eq p b c = Ok true -> num_eq p a c = Ok true.
+Proof. exact eq_trans_all. Qed.
+Print Assumptions C09_full_outside_rounding.
+
+Theorem C09_lt_trans_float : forall p a b c,
+  wfb a = true -> wfb b = true -> wfb c = true ->
+  non_nan a = true -> non_nan b = true -> non_nan c = true ->
+  float_side_exact a b = true -> float_side_exact b c = true -> float_side_exact a c = true ->
+  num_lt p a b = Ok true -> num_lt p b c = Ok true -> num_lt p a c = Ok true.
+Proof. exact lt_trans_all. Qed.
+Print Assumptions C09_lt_trans_float.
+
+Theorem C09_trichotomy_float : forall p a b,
+  wfb a = true -> wfb b = true -> non_nan a = true -> non_nan b = true ->
+  float_side_exact a b = true ->
+  exists lt eq gt, num_lt p a b = Ok lt /\ num_eq p a b = Ok eq /\ num_gt p a b = Ok gt /\
+    ((lt = true /\ eq = false /\ gt = false) \/ (lt = false /\ eq = true /\ gt = false) \/
+     (lt = false /\ eq = false /\ gt = true)).
+Proof. exact trichotomy_all. Qed.
+Print Assumptions C09_trichotomy_float.
+
+(* refutations of the statement as first written *)
+Theorem C09_cmp_float_refuted : ~ C09_cmp_float_stmt.
+Proof.
+  intros H.
+  specialize (H Debug (fun _ => Some 0%Q) (Float f64_zero) (Float (f64_inf false)) 0%Q 0%Q
+                eq_refl eq_refl eq_refl eq_refl eq_refl eq_refl).
+  vm_compute in H. discriminate H.
+Qed.
+Print Assumptions C09_cmp_float_refuted.
+
+(* with the intended valuation: 2^53+1 against the double 2^53 compares Equal *)
+Theorem C09_cmp_float_refuted_rounding :
+  exists a b va vb, wfb a = true /\ wfb b = true /\ non_nan a = true /\ non_nan b = true /\
+    nval f64_to_Q a = Some va /\ nval f64_to_Q b = Some vb /\
+    float_side_exact a b = false /\
+    num_partial_cmp Debug a b = Ok (Some Eq) /\ (va ?= vb)%Q = Gt.
+Proof.
+  exists (Fixnum 9007199254740993), (Float (f64_of_Z 9007199254740992)),
+         (inject_Z 9007199254740993), (inject_Z 9007199254740992).
+  repeat split; try reflexivity; vm_compute; reflexivity.
+Qed.
+Print Assumptions C09_cmp_float_refuted_rounding.
+
 (* ---- non-vacuity *)
 Example C09_example :
   num_lt Debug (Fixnum (- 2 ^ 32)) (Rational 1 2) = Ok true /\
@@ -157,4 +290,30 @@ Example C09_example :
   num_eq Debug (BigInt 5) (Rational 5 1) = Ok true /\
   rcmp Debug 32 (2147483647, 2147483646) (2147483646, 2147483645) = Ok Lt /\
   b_num_comp CLt Debug [ANum (Fixnum 1); ANum (Rational 3 2); ANum (BigInt 2)] = Ok (RBool true).
+Proof. repeat split; vm_compute; reflexivity. Qed.
+
+(* C09_cmp_float / C09_cmp_float_inf: the side condition holds on Fixnum, BigInt and Rational
+   operands against doubles (3 vs 2.5, 2^60 vs 1e300, 3/4 vs 0.75, 1/3 fails), the values exist *)
+Example C09_example_float :
+  float_side_exact (Fixnum 3) (Float (f64_of_bits 0x4004000000000000)) = true /\
+  match nval f64_to_Q (Float (f64_of_bits 0x4004000000000000)) with
+  | Some q => Qeq_bool q (5 # 2) | None => false end = true /\
+  num_partial_cmp Debug (Fixnum 3) (Float (f64_of_bits 0x4004000000000000)) = Ok (Some Gt) /\
+  float_side_exact (BigInt (2 ^ 60)) (Float (f64_of_bits 0x7e37e43c8800759c)) = true /\
+  float_side_exact (Float (f64_of_bits 0x3fe8000000000000)) (Rational 3 4) = true /\
+  num_partial_cmp Release (Float (f64_of_bits 0x3fe8000000000000)) (Rational 3 4) = Ok (Some Eq) /\
+  float_side_exact (Rational 1 3) (Float (f64_of_bits 0x3fd5555555555555)) = false /\
+  nvalx (Float (f64_inf true)) = Some XNegInf /\
+  float_side_exact (Rational 1 3) (Fixnum (2 ^ 60 + 1)) = true /\
+  rwfb (-5) (2 ^ 3) = true /\
+  num_partial_cmp Debug (Rational (-5) (2 ^ 3)) (Float (f64_of_bits 0xbfe4000000000000)) = Ok (Some Eq).
+Proof. repeat split; vm_compute; reflexivity. Qed.
+
+(* C09_full_outside_rounding: a chain across three representations satisfying all its
+   hypotheses ((= 4 4.0 8/2-as-BigInt)), and the refuting triple of C09_refuted_rounding outside *)
+Example C09_example_trans :
+  let a := Fixnum 4 in let b := Float (f64_of_Z 4) in let c := BigInt 4 in
+  float_side_exact a b = true /\ float_side_exact b c = true /\ float_side_exact a c = true /\
+  num_eq Debug a b = Ok true /\ num_eq Debug b c = Ok true /\
+  float_side_exact (Fixnum 9007199254740993) (Float (f64_of_Z 9007199254740992)) = false.
 Proof. repeat split; vm_compute; reflexivity. Qed.
